@@ -165,10 +165,14 @@ def check_decorations(prog, rep):
     bad = []
     n_paths = 0
     try:
-        summs = Paths(prog).of(dd)
+        # helpers introduced by an edit and the dimension helper itself are inlined: the rectangle is compared in its
+        # expanded form Rectangle::new(position + Size::new(0, d.offset), Size::new(width, d.height))
+        summs = Paths(prog, inline=lambda g: prog.is_new(g) or g.name == "get_bounding_box").of(dd)
     except Unsupported as e:
         summs = []
         bad.append("cannot summarise draw_decorations: %s" % e)
+    DD = "embedded_graphics::mono_font::DecorationDimensions"
+    dfi = {f["name"]: i for i, f in enumerate(prog.adts[DD]["variants"][0]["fields"])} if DD in prog.adts else {}
     for sm in summs:
         n_paths += 1
         tested = {}
@@ -196,6 +200,13 @@ def check_decorations(prog, rep):
             if m is not None:
                 for nm in DECOS:
                     if m["?dim"] == ("field", font, ff(nm)):
+                        which = nm
+            elif dfi:
+                for nm in DECOS:
+                    dim = ("field", font, ff(nm))
+                    exp = ("call", "*Rectangle::new", "_", (("call", "*::add", "_", (("param", 3, "position"), ("call", "*Size::new", "_", (("const", 0), ("field", dim, dfi["offset"]))))),
+                                                           ("call", "*Size::new", "_", (("param", 2, "width"), ("field", dim, dfi["height"])))))
+                    if match(strip_refs(rect), exp) is not None:
                         which = nm
             cwhich = eff_colour(colour[1]) if colour[0] == "payload" else None
             if which is None or cwhich != which:
@@ -418,25 +429,29 @@ def check_roles(prog, rep):
     # construction in draw_string: Both(text, background), Foreground(text), Background(background)
     STYLE = "embedded_graphics::mono_font::mono_text_style::MonoTextStyle"
     ds = prog.method1(STYLE, "draw_string", "embedded_graphics::text::renderer::TextRenderer")
-    org = Origins(ds)
     fi = lambda n: field_index(prog, STYLE, n)
     seen = {}
-    for bi in sorted(org.cfg.live_blocks()):
-        for si, s in enumerate(ds.body["blocks"][bi]["s"]):
-            if s["k"] == "assign" and s["rv"]["k"] == "agg" and str(s["rv"].get("adt", "")).startswith("embedded_graphics::mono_font::draw_target::"):
-                nm = s["rv"]["adt"].split("::")[-1]
-                ops = [strip_refs(org.operand(o, bi, si)) for o in s["rv"]["ops"]]
-                srcs = []
-                for o in ops:
-                    f_ = None
-                    for n in walk(o):
-                        m = match(n, ("field", ("deref", ("param", 1, "self")), "?i"))
-                        if m is None:
-                            m = match(n, ("field", ("param", 1, "self"), "?i"))
-                        if m is not None:
-                            f_ = m["?i"]
-                    srcs.append(f_)
-                seen[nm] = srcs
+    # path summaries with helpers introduced by an edit inlined: every colour adapter built anywhere on the way
+    try:
+        for sm in Paths(prog, inline=lambda g: prog.is_new(g)).of(ds):
+            trees = [x for e in sm.effects for x in e[1:] if isinstance(x, tuple)] + ([sm.ret] if sm.ret is not None else []) + [x for f_ in sm.facts for x in f_[1:] if isinstance(x, tuple)]
+            for t_ in trees:
+                for n in walk(t_):
+                    if n[0] == "agg" and str(n[1]).startswith("embedded_graphics::mono_font::draw_target::"):
+                        nm = str(n[1]).split("::")[-1]
+                        srcs = []
+                        for o in n[2]:
+                            f_ = None
+                            for x in walk(o):
+                                m = match(x, ("field", ("param", 1, "self"), "?i")) or match(x, ("field", ("deref", ("param", 1, "self")), "?i"))
+                                if m is not None:
+                                    f_ = m["?i"]
+                            srcs.append(f_)
+                        if seen.get(nm, srcs) != srcs:
+                            srcs = ["conflict"]
+                        seen[nm] = srcs
+    except Unsupported as e:
+        seen = {"?": str(e)}
     wantc = {"Both": [fi("text_color"), fi("background_color")], "Foreground": [fi("text_color")], "Background": [fi("background_color")]}
     rep.check(seen == wantc, "R14.3", "construction", "draw_string must build Both(text, background), Foreground(text), Background(background); found field indices %s, expected %s" % (seen, wantc),
               at=ds.span, fn=ds.path, detail=seen)
@@ -532,6 +547,8 @@ def check_grammar(prog, rep):
             bad.append("a path of index() does not examine exactly one item of the enumeration")
             continue
         it, names = nxt[0][1][3][0], nxt[0][2]
+        while it[0] == "call" and it[1].split("::")[-1] in ("into_iter", "by_ref") and len(it[3]) == 1:
+            it = it[3][0]     # `for (i, c) in self.chars().enumerate()` iterates the same iterator as `.find(..)` does
         enum = match(it, ("call", "*::enumerate", "_", (chars_self,))) is not None
         plain = match(it, chars_self) is not None
         if not (enum or plain):
